@@ -280,7 +280,8 @@ func c02Main(args []string) error {
 		if len(args) > 2 {
 			fmt.Sscan(args[2], &n)
 		}
-		for i := 0; i < n; i++ {
+		nbad := 0
+		for i := 0; i < n && nbad < 4; i++ {
 			src := c02Programs[i%len(c02Programs)]
 			circ, err := compileMPCL(src, nil)
 			if err != nil {
@@ -362,12 +363,18 @@ func c02Main(args []string) error {
 					checkSession(res, sr, want, "shared-circuit:"+kinds[j%3], fmt.Sprintf("program %d, 6 concurrent sessions on one circuit value, x=%v y=%v", i%len(c02Programs), x, y))
 				}
 				res.Class = "program:shared-circuit"
+				if len(res.Viol) > 0 {
+					nbad++
+				}
 				out.put(res)
 				continue
 			}
 			sr := runWhole(circ, xin, yin, sessOpts{ot: k, fragment: rng, randSeed: uint64(seed())<<32 + uint64(i) + 99999, corruptAt: -1})
 			checkSession(res, sr, want, k, fmt.Sprintf("program %d x=%v y=%v", i%len(c02Programs), x, y))
 			res.Class = "program:" + k
+			if len(res.Viol) > 0 {
+				nbad++
+			}
 			out.put(res)
 		}
 		return nil
